@@ -88,6 +88,8 @@ def gen_case(rnd):
         if rnd.random() < 0.1:
             c["h"], c["mi"] = b.hour, b.minute
         c["s"] = "%02d:%02d" % (c["h"], c["mi"])
+        if rnd.random() < 0.15 and (c["h"] > 12 or c["mi"] > 12):
+            c["s"] = "%02d.%02d" % (c["h"], c["mi"])      # hours and minutes separated by a period (cannot be day.month)
         c["zone"] = rnd.choice(ZONES)
     else:
         c["yy"], c["m"], c["d"] = rnd.randrange(100), rnd.randrange(1, 13), rnd.randrange(1, 29)
